@@ -822,3 +822,26 @@ func SpecContains(s string, sub string) bool { return false }
 //@   requires nonnil: rl != nil && req != nil
 //@   modifies heap, chId, chRight, chEmpty
 //@   assert at call sendData: a_follower_ahead_of_the_leader_is_never_sent_data: followerOffset <= sp.Offset
+
+// ---- memory cache: a reader only ever moves to the successor of the segment it is reading ----
+// ---- (C05: an invalidated reader ends or fails, it never delivers other bytes) ---------------
+//@ func MemoryChannel.nextAofSegment
+//@   arith int
+//@   properties C05
+//@   requires nonnil: mc != nil
+//@   modifies nothing
+//@   ensures successor_of_that_very_segment: result != nil ==> (exists i int :: 0 <= i && i < len(mc.aofSegs) - 1 && mc.aofSegs[i] == seg && result == mc.aofSegs[i + 1])
+
+//@ func memorySegment.acquire
+//@   trusted frame: reference count
+//@ func memorySegment.release
+//@   trusted frame: reference count
+//@ func MemoryChannel.copyAofFrom
+//@   arith int
+//@   properties C05
+//@   replay syncer_memoryReader
+//@   ghost var succOk mathint = 1
+//@   requires nonnil: mc != nil && seg != nil
+//@   modifies heap, succOk
+//@   set succOk = ite(result == nil || (exists i int :: 0 <= i && i < len(mc.aofSegs) - 1 && mc.aofSegs[i] == current && mc.aofSegs[i + 1] == result), 1, 0) after call nextAofSegment
+//@   assert at call acquire: a_reader_moves_only_to_the_successor_of_its_own_segment: succOk == 1
